@@ -3,7 +3,7 @@
     panic, no endless probe) without nil slots in which a zero-weight target has
     no slot, a positive-weight target at least one, and (on the fill path) target i
     exactly [slot_count w_i] slots. *)
-From Coq Require Import List ZArith NArith QArith Bool Lia Lqa Permutation.
+From Coq Require Import List ZArith NArith QArith Qminmax Bool Lia Lqa Permutation.
 From Fabio Require Import Lib.Outcome Model.Weigh Model.Ring Proofs.Weigh Proofs.Ring.
 Import ListNotations.
 Local Open Scope nat_scope.
@@ -45,23 +45,23 @@ Proof.
   rewrite (H x (or_introl eq_refl)), IH; [ring|]. intros w Hw. apply H. now right.
 Qed.
 
-Theorem route_ring_spec order (l : list Q) :
+Theorem route_ring_spec_unrepaired order (l : list Q) :
   l <> [] -> (Z.of_nat (length l) <= 3000000000)%Z -> (forall s, Permutation (order s) s) ->
-  exists r, route_ring arithQ order l = Ok (weighQ l, r)
+  exists r, route_ring_unrepaired arithQ order l = Ok (weighQ_unrepaired l, r)
     /\ r <> [] /\ occupancy None r = 0
-    /\ forall i w, nth_error (weighQ l) i = Some w ->
+    /\ forall i w, nth_error (weighQ_unrepaired l) i = Some w ->
          ((w == 0)%Q -> occupancy (Some i) r = 0)
          /\ ((0 < w)%Q -> 1 <= occupancy (Some i) r)
          /\ (n_fix l <> 0 -> Z.of_nat (occupancy (Some i) r) = slot_countQ w).
 Proof.
-  intros Hne Hlen Hord. unfold route_ring. fold (weighQ l). rewrite n_fixed_is.
+  intros Hne Hlen Hord. unfold route_ring_unrepaired. fold (weighQ_unrepaired l). rewrite n_fixed_is.
   assert (Hl : 0 < length l) by (destruct l; [congruence|cbn; lia]).
   destruct (Nat.eqb (n_fix l) 0) eqn:E0.
   - (* no fixed weight: the ring is the target list itself *)
     exists (map Some (seq 0 (length l))). split; [reflexivity|]. split.
     { destruct l as [|x0 l0]; [exfalso; now apply Hne|]. cbn [length seq map]. discriminate. }
     split; [apply occupancy_none_map_some|].
-    intros i w Hw. destruct (weighQ_nth_inv l i w Hw) as (f & Hf & ->).
+    intros i w Hw. destruct (weighQU_nth_inv l i w Hw) as (f & Hf & ->).
     assert (Hi : i < length l) by (apply (proj1 (nth_error_Some l i)); rewrite Hf; discriminate).
     rewrite occupancy_map_some_seq. cbn [Nat.leb andb Nat.add].
     replace (Nat.ltb i (length l)) with true by (symmetry; apply Nat.ltb_lt; lia).
@@ -69,9 +69,9 @@ Proof.
     assert (Hpos : (0 < 1 / qn (length l))%Q) by (apply Qlt_shift_div_l; lra).
     repeat split; [intros Hz; lra|lia|]. apply Nat.eqb_eq in E0. intros; lia.
   - apply Nat.eqb_neq in E0.
-    set (counts := map (slot_count arithQ) (weighQ l)).
-    assert (Hw01 : forall w, In w (weighQ l) -> (0 <= w)%Q /\ (w <= 1)%Q).
-    { intros w Hin. split; [now apply (weights_nonneg l)|now apply (weights_le_one l)]. }
+    set (counts := map (slot_count arithQ) (weighQ_unrepaired l)).
+    assert (Hw01 : forall w, In w (weighQ_unrepaired l) -> (0 <= w)%Q /\ (w <= 1)%Q).
+    { intros w Hin. split; [now apply (weights_nonneg_unrepaired l)|now apply (weights_le_one_unrepaired l)]. }
     assert (Hrange : Forall (fun n => 0 <= n <= 10000)%Z counts).
     { unfold counts. apply Forall_forall. intros n Hn. apply in_map_iff in Hn.
       destruct Hn as (w & <- & Hin). destruct (Hw01 w Hin). now apply slot_count_range. }
@@ -82,17 +82,17 @@ Proof.
       { eapply Forall_impl; [|exact Hrange]. cbn. intros; lia. }
       pose proof (zsum_bound counts 10000 Hub) as Hz.
       assert (Hlc : length counts = length l).
-      { unfold counts. rewrite map_length, weighQ_map, map_length. reflexivity. }
+      { unfold counts. rewrite map_length, weighQU_map, map_length. reflexivity. }
       rewrite Hlc in Hz. assert (2 ^ 45 = 35184372088832)%Z by reflexivity. lia. }
     destruct (ring_of_counts_spec counts (order (indexed counts)) Hnn Hb (Hord _))
       as (r & Hr & Hlr & HoN & HoS).
     rewrite Hr. cbn [bind]. exists r. split; [reflexivity|].
-    assert (Hper : forall i w, nth_error (weighQ l) i = Some w ->
+    assert (Hper : forall i w, nth_error (weighQ_unrepaired l) i = Some w ->
               Z.of_nat (occupancy (Some i) r) = slot_countQ w).
     { intros i w Hw. rewrite HoS. unfold counts.
-      apply (nth_error_nth (map (slot_count arithQ) (weighQ l))).
+      apply (nth_error_nth (map (slot_count arithQ) (weighQ_unrepaired l))).
       now apply map_nth_error. }
-    assert (Hcl : forall i w, nth_error (weighQ l) i = Some w ->
+    assert (Hcl : forall i w, nth_error (weighQ_unrepaired l) i = Some w ->
          ((w == 0)%Q -> occupancy (Some i) r = 0)
          /\ ((0 < w)%Q -> 1 <= occupancy (Some i) r)
          /\ (n_fix l <> 0 -> Z.of_nat (occupancy (Some i) r) = slot_countQ w)).
@@ -105,23 +105,23 @@ Proof.
     split; [|split; [exact HoN|exact Hcl]].
     (* some weight is positive (they sum to one), so the ring is not empty *)
     intros ->.
-    assert (Hall : forall w, In w (weighQ l) -> (w == 0)%Q).
+    assert (Hall : forall w, In w (weighQ_unrepaired l) -> (w == 0)%Q).
     { intros w Hin. destruct (In_nth_error _ _ Hin) as (i & Hi).
       destruct (Hcl i w Hi) as (_ & Hp & _). destruct (Hw01 w Hin) as [H0 _].
       destruct (Qlt_le_dec 0 w) as [Hlt|Hle]; [specialize (Hp Hlt); cbn in Hp; lia|lra]. }
-    pose proof (sumQ_all_zero _ Hall) as Hs0. rewrite (weights_sum_one l Hne) in Hs0. lra.
+    pose proof (sumQ_all_zero _ Hall) as Hs0. rewrite (weights_sum_one_unrepaired l Hne) in Hs0. lra.
 Qed.
 
 (* ---------- the crash status shortcut is the model ---------- *)
 (** for every arithmetic instance (binary64 included), every list of fixed weights and
-    every behaviour of the sort: [route_status] is the crash status of [route_ring] *)
-Theorem route_status_correct (A : arith) order (fixed : list (num A)) :
+    every behaviour of the sort: [route_status_unrepaired] is the crash status of [route_ring_unrepaired] *)
+Theorem route_status_correct_unrepaired (A : arith) order (fixed : list (num A)) :
   (forall s, Permutation (order s) s) ->
-  status_of (route_ring A order fixed) = route_status A fixed.
+  status_of (route_ring_unrepaired A order fixed) = route_status_unrepaired A fixed.
 Proof.
-  intros Hord. unfold route_ring, route_status.
+  intros Hord. unfold route_ring_unrepaired, route_status_unrepaired.
   destruct (Nat.eqb (n_fixed A fixed) 0); [reflexivity|].
-  set (counts := map (slot_count A) (weigh A fixed)).
+  set (counts := map (slot_count A) (weigh_unrepaired A fixed)).
   pose proof (ring_status_correct counts (order (indexed counts)) (Hord _)) as H.
   destruct (ring_of_counts (order (indexed counts)) counts); cbn [bind status_of] in *; exact H.
 Qed.
@@ -140,21 +140,21 @@ Proof.
   intros [i|]; [|lia]. specialize (Hs1 i). specialize (Hs2 i). lia.
 Qed.
 
-Lemma route_counts_ok (l : list Q) :
+Lemma route_counts_ok_unrepaired (l : list Q) :
   (Z.of_nat (length l) <= 3000000000)%Z ->
-  let counts := map (slot_count arithQ) (weighQ l) in
+  let counts := map (slot_count arithQ) (weighQ_unrepaired l) in
   Forall (fun n => 0 <= n <= 10000)%Z counts /\ (zsum counts <= 2 ^ 45)%Z.
 Proof.
   intros Hlen counts.
   assert (Hrange : Forall (fun n => 0 <= n <= 10000)%Z counts).
   { unfold counts. apply Forall_forall. intros n Hn. apply in_map_iff in Hn.
-    destruct Hn as (w & <- & Hin). apply slot_count_range; [now apply (weights_nonneg l)|now apply (weights_le_one l)]. }
+    destruct Hn as (w & <- & Hin). apply slot_count_range; [now apply (weights_nonneg_unrepaired l)|now apply (weights_le_one_unrepaired l)]. }
   split; [exact Hrange|].
   assert (Hub : Forall (fun n => n <= 10000)%Z counts).
   { eapply Forall_impl; [|exact Hrange]. cbn. intros; lia. }
   pose proof (zsum_bound counts 10000 Hub) as Hz.
   assert (Hlc : length counts = length l).
-  { unfold counts. rewrite map_length, weighQ_map, map_length. reflexivity. }
+  { unfold counts. rewrite map_length, weighQU_map, map_length. reflexivity. }
   rewrite Hlc in Hz. assert (2 ^ 45 = 35184372088832)%Z by reflexivity. lia.
 Qed.
 
@@ -162,18 +162,18 @@ Qed.
     and every target (and nil) the same number of slots: all conclusions of the property
     (shares, never starved, never picked, hit counts of a full round-robin cycle, support
     of the random picker) are functions of these numbers only *)
-Theorem route_split_order_independent order1 order2 (l : list Q) :
+Theorem route_split_order_independent_unrepaired order1 order2 (l : list Q) :
   l <> [] -> (Z.of_nat (length l) <= 3000000000)%Z ->
   (forall s, Permutation (order1 s) s) -> (forall s, Permutation (order2 s) s) ->
-  exists r1 r2, route_ring arithQ order1 l = Ok (weighQ l, r1)
-    /\ route_ring arithQ order2 l = Ok (weighQ l, r2)
+  exists r1 r2, route_ring_unrepaired arithQ order1 l = Ok (weighQ_unrepaired l, r1)
+    /\ route_ring_unrepaired arithQ order2 l = Ok (weighQ_unrepaired l, r2)
     /\ length r1 = length r2 /\ forall t, occupancy t r1 = occupancy t r2.
 Proof.
-  intros Hne Hlen H1 H2. unfold route_ring. fold (weighQ l).
+  intros Hne Hlen H1 H2. unfold route_ring_unrepaired. fold (weighQ_unrepaired l).
   destruct (Nat.eqb (n_fixed arithQ l) 0).
   - eexists. eexists. repeat split; reflexivity.
-  - destruct (route_counts_ok l Hlen) as [Hrange Hb].
-    set (counts := map (slot_count arithQ) (weighQ l)) in *.
+  - destruct (route_counts_ok_unrepaired l Hlen) as [Hrange Hb].
+    set (counts := map (slot_count arithQ) (weighQ_unrepaired l)) in *.
     assert (Hnn : Forall (fun n => 0 <= n)%Z counts).
     { eapply Forall_impl; [|exact Hrange]. cbn. intros; lia. }
     destruct (fill_counts_order_independent counts _ _ Hnn Hb (H1 (indexed counts)) (H2 (indexed counts)))
@@ -214,15 +214,15 @@ Qed.
 
 (** slots_resolution (sum): the ring of a route with [len] targets has more than S - len and
     at most S + len slots, S = maxSlots = 10000 *)
-Theorem slots_resolution_sum (l : list Q) : l <> [] ->
-  (10000 - Z.of_nat (length l) < zsum (map slot_countQ (weighQ l)) <= 10000 + Z.of_nat (length l))%Z.
+Theorem slots_resolution_sum_unrepaired (l : list Q) : l <> [] ->
+  (10000 - Z.of_nat (length l) < zsum (map slot_countQ (weighQ_unrepaired l)) <= 10000 + Z.of_nat (length l))%Z.
 Proof.
   intros Hne.
-  assert (H01 : forall w, In w (weighQ l) -> 0 <= w /\ w <= 1).
-  { intros w Hin. split; [now apply (weights_nonneg l)|now apply (weights_le_one l)]. }
-  pose proof (weights_sum_one l Hne) as Hsum.
-  assert (Hlen : length (weighQ l) = length l) by (rewrite weighQ_map; apply map_length).
-  destruct (weighQ l) as [|w ws] eqn:Ews.
+  assert (H01 : forall w, In w (weighQ_unrepaired l) -> 0 <= w /\ w <= 1).
+  { intros w Hin. split; [now apply (weights_nonneg_unrepaired l)|now apply (weights_le_one_unrepaired l)]. }
+  pose proof (weights_sum_one_unrepaired l Hne) as Hsum.
+  assert (Hlen : length (weighQ_unrepaired l) = length l) by (rewrite weighQU_map; apply map_length).
+  destruct (weighQ_unrepaired l) as [|w ws] eqn:Ews.
   { exfalso. destruct l; [now apply Hne|]. cbn in Hlen. discriminate. }
   cbn [map] in *. rewrite zsum_cons. rewrite sumQ_cons in Hsum. cbn [length] in Hlen.
   destruct (H01 w (or_introl eq_refl)) as [H0 H1].
@@ -238,20 +238,20 @@ Qed.
 
 (** ... and therefore the share of slots of every target is its weight up to
     (len + 1) / (S - len), for every route with fewer than S targets *)
-Theorem slots_share_bound (l : list Q) i w : l <> [] -> (Z.of_nat (length l) < 10000)%Z ->
-  nth_error (weighQ l) i = Some w ->
-  let U := inject_Z (zsum (map slot_countQ (weighQ l))) in
+Theorem slots_share_bound_unrepaired (l : list Q) i w : l <> [] -> (Z.of_nat (length l) < 10000)%Z ->
+  nth_error (weighQ_unrepaired l) i = Some w ->
+  let U := inject_Z (zsum (map slot_countQ (weighQ_unrepaired l))) in
   let B := (qn (length l) + 1) / (inject_Z 10000 - qn (length l)) in
   0 < U /\ - B <= inject_Z (slot_countQ w) / U - w /\ inject_Z (slot_countQ w) / U - w <= B.
 Proof.
   intros Hne Hlt Hw U B.
-  pose proof (slots_resolution_sum l Hne) as [HUl HUu].
+  pose proof (slots_resolution_sum_unrepaired l Hne) as [HUl HUu].
   rewrite Zlt_Qlt in HUl. rewrite Zle_Qle in HUu. rewrite inject_Z_sub in HUl. rewrite inject_Z_plus in HUu.
   fold U in HUl, HUu. fold (qn (length l)) in HUl, HUu.
   rewrite Zlt_Qlt in Hlt. fold (qn (length l)) in Hlt.
   pose proof (qn_nonneg (length l)) as Hln.
-  assert (H0 : 0 <= w) by (apply (weights_nonneg l); eapply nth_error_In; eauto).
-  assert (H1 : w <= 1) by (apply (weights_le_one l); eapply nth_error_In; eauto).
+  assert (H0 : 0 <= w) by (apply (weights_nonneg_unrepaired l); eapply nth_error_In; eauto).
+  assert (H1 : w <= 1) by (apply (weights_le_one_unrepaired l); eapply nth_error_In; eauto).
   destruct (slot_bounds w H0 H1) as [Hl Hu].
   set (n := inject_Z (slot_countQ w)) in *. set (L := qn (length l)) in *. set (S := inject_Z 10000) in *.
   assert (HU0 : 0 < U) by lra. split; [exact HU0|].
@@ -269,6 +269,197 @@ Qed.
 Local Close Scope Q_scope.
 
 (* non-vacuity: the hypotheses are met by a concrete route and the stable order *)
+Example route_ring_nonvacuous_unrepaired :
+  exists r, route_ring_unrepaired arithQ stable_order [1 # 2; 0; 1 # 5]%Q = Ok (weighQ_unrepaired [1 # 2; 0; 1 # 5]%Q, r) /\ r <> [].
+Proof.
+  destruct (route_ring_spec_unrepaired stable_order [1 # 2; 0; 1 # 5]%Q) as (r & H1 & H2 & _).
+  - discriminate.
+  - cbn. lia.
+  - apply stable_order_perm.
+  - exists r. split; assumption.
+Qed.
+
+(* ====================================================================== *)
+(* weighTargets since commit 290c777 (fallback to the even distribution)   *)
+(* ====================================================================== *)
+Lemma usable_Q w : (0 <= w)%Q -> (w <= 1)%Q -> usable arithQ w = true.
+Proof.
+  intros H0 H1. unfold usable. cbn [a_le a_zero a_wmax arithQ].
+  apply andb_true_iff. split; apply Qle_bool_iff; [exact H0|].
+  apply Qle_trans with 1%Q; [exact H1|]. unfold Qle. cbn. lia.
+Qed.
+
+Lemma zsum_zero_all counts : Forall (fun n => 0 <= n)%Z counts -> zsum counts = 0%Z ->
+  forall n, In n counts -> n = 0%Z.
+Proof.
+  induction 1 as [|m counts Hm Hall IH]; intros Hz n Hin; [destruct Hin|].
+  rewrite zsum_cons in Hz. pose proof (zsum_nonneg counts Hall).
+  destruct Hin as [<-|Hin]; [lia|apply IH; [lia|exact Hin]].
+Qed.
+
+Lemma counts_sum_pos (l : list Q) : l <> [] -> (Z.of_nat (length l) <= 3000000000)%Z ->
+  (0 < zsum (map (slot_count arithQ) (weighQ_unrepaired l)))%Z.
+Proof.
+  intros Hne Hlen. destruct (route_counts_ok_unrepaired l Hlen) as [Hrange _].
+  set (counts := map (slot_count arithQ) (weighQ_unrepaired l)) in *.
+  assert (Hnn : Forall (fun n => 0 <= n)%Z counts) by (eapply Forall_impl; [|exact Hrange]; cbn; intros; lia).
+  pose proof (zsum_nonneg counts Hnn) as H0.
+  destruct (Z.eq_dec (zsum counts) 0) as [Hz|Hz]; [|lia]. exfalso.
+  assert (Hall : forall w, In w (weighQ_unrepaired l) -> (w == 0)%Q).
+  { intros w Hin. pose proof (weights_nonneg_unrepaired l w Hin) as Hw0.
+    pose proof (weights_le_one_unrepaired l w Hin) as Hw1.
+    destruct (Qlt_le_dec 0 w) as [Hlt|Hle]; [|lra].
+    pose proof (slot_count_pos w Hlt Hw1) as Hp.
+    assert (Hc : slot_countQ w = 0%Z).
+    { apply (zsum_zero_all counts Hnn Hz). unfold counts. apply in_map. exact Hin. }
+    lia. }
+  pose proof (sumQ_all_zero _ Hall) as Hs0. rewrite (weights_sum_one_unrepaired l Hne) in Hs0. lra.
+Qed.
+
+(** fallback_never_on_Q: on exact rationals the usable test always passes and usedSlots > 0
+    (for a non-empty route with at most 3*10^9 targets, so that usedSlots cannot wrap), hence
+    the repaired weighTargets IS the old one on Q *)
+Theorem fallback_never_on_Q (l : list Q) : l <> [] -> (Z.of_nat (length l) <= 3000000000)%Z ->
+  fallback arithQ l = false.
+Proof.
+  intros Hne Hlen. unfold fallback. cbv zeta. fold (weighQ_unrepaired l).
+  apply orb_false_iff. split.
+  - apply negb_false_iff. apply forallb_forall. intros w Hin.
+    apply usable_Q; [now apply (weights_nonneg_unrepaired l)|now apply (weights_le_one_unrepaired l)].
+  - destruct (route_counts_ok_unrepaired l Hlen) as [Hrange Hb]. cbv zeta in Hrange, Hb.
+    set (counts := map (slot_count arithQ) (weighQ_unrepaired l)) in *.
+    assert (Hnn : Forall (fun n => 0 <= n)%Z counts) by (eapply Forall_impl; [|exact Hrange]; cbn; intros; lia).
+    change (total_slots counts) with (used_slots counts).
+    assert (H45 : (2 ^ 45 = 35184372088832)%Z) by reflexivity.
+    rewrite used_slots_sum by (auto; lia).
+    pose proof (counts_sum_pos l Hne Hlen) as Hp. fold counts in Hp. apply Z.leb_gt. exact Hp.
+Qed.
+
+Lemma uses_fill_Q (l : list Q) : (Z.of_nat (length l) <= 3000000000)%Z ->
+  uses_fill arithQ l = negb (Nat.eqb (n_fix l) 0).
+Proof.
+  intros Hlen. unfold uses_fill. change (n_fixed arithQ l) with (n_fix l). destruct l as [|x l]; [reflexivity|].
+  rewrite fallback_never_on_Q by (try discriminate; exact Hlen). apply andb_true_r.
+Qed.
+
+Theorem weighQ_eq_unrepaired (l : list Q) : (Z.of_nat (length l) <= 3000000000)%Z ->
+  weighQ l = weighQ_unrepaired l.
+Proof.
+  intros Hlen. unfold weighQ, weigh. rewrite (uses_fill_Q l Hlen).
+  destruct (Nat.eqb (n_fix l) 0) eqn:E; cbn [negb]; [|reflexivity].
+  unfold weigh_even, weighQ_unrepaired, weigh_unrepaired. cbv zeta. change (n_fixed arithQ l) with (n_fix l). rewrite E. reflexivity.
+Qed.
+
+Theorem route_ring_Q_eq order (l : list Q) : (Z.of_nat (length l) <= 3000000000)%Z ->
+  route_ring arithQ order l = route_ring_unrepaired arithQ order l.
+Proof.
+  intros Hlen. unfold route_ring, route_ring_unrepaired.
+  pose proof (weighQ_eq_unrepaired l Hlen) as E. unfold weighQ, weighQ_unrepaired in E.
+  rewrite E, (uses_fill_Q l Hlen). change (n_fixed arithQ l) with (n_fix l).
+  destruct (Nat.eqb (n_fix l) 0); reflexivity.
+Qed.
+
+(** the proportionality theorems for the code as it is *)
+Theorem fixed_honoured (l : list Q) i f w : (Z.of_nat (length l) <= 3000000000)%Z ->
+  nth_error l i = Some f -> (0 < f)%Q -> (sum_pos l <= 1)%Q -> n_fix l < length l ->
+  nth_error (weighQ l) i = Some w -> (w == f)%Q.
+Proof. intros Hlen. rewrite (weighQ_eq_unrepaired l Hlen). apply fixed_honoured_unrepaired. Qed.
+
+Theorem scaled_down (l : list Q) i f w : (Z.of_nat (length l) <= 3000000000)%Z ->
+  nth_error l i = Some f -> (0 < f)%Q -> (1 < sum_pos l)%Q ->
+  nth_error (weighQ l) i = Some w -> (w == f / sum_pos l)%Q.
+Proof. intros Hlen. rewrite (weighQ_eq_unrepaired l Hlen). apply scaled_down_unrepaired. Qed.
+
+Theorem scaled_down_dynamic (l : list Q) i f w : (Z.of_nat (length l) <= 3000000000)%Z ->
+  nth_error l i = Some f -> ~ (0 < f)%Q -> (1 < sum_pos l)%Q ->
+  nth_error (weighQ l) i = Some w -> (w == 0)%Q.
+Proof. intros Hlen. rewrite (weighQ_eq_unrepaired l Hlen). apply scaled_down_dynamic_unrepaired. Qed.
+
+Theorem scaled_up (l : list Q) i f w : (Z.of_nat (length l) <= 3000000000)%Z ->
+  nth_error l i = Some f -> n_fix l = length l -> (sum_pos l < 1)%Q ->
+  nth_error (weighQ l) i = Some w -> (w == f / sum_pos l)%Q.
+Proof. intros Hlen. rewrite (weighQ_eq_unrepaired l Hlen). apply scaled_up_unrepaired. Qed.
+
+Theorem dynamic_equal_share (l : list Q) i f w : (Z.of_nat (length l) <= 3000000000)%Z ->
+  nth_error l i = Some f -> ~ (0 < f)%Q ->
+  nth_error (weighQ l) i = Some w -> (w == (1 - Qmin 1 (sum_pos l)) / qn (n_dyn l))%Q.
+Proof. intros Hlen. rewrite (weighQ_eq_unrepaired l Hlen). apply dynamic_equal_share_unrepaired. Qed.
+
+(** end to end, the code as it is *)
+Theorem route_ring_spec order (l : list Q) :
+  l <> [] -> (Z.of_nat (length l) <= 3000000000)%Z -> (forall s, Permutation (order s) s) ->
+  exists r, route_ring arithQ order l = Ok (weighQ l, r)
+    /\ r <> [] /\ occupancy None r = 0
+    /\ forall i w, nth_error (weighQ l) i = Some w ->
+         ((w == 0)%Q -> occupancy (Some i) r = 0)
+         /\ ((0 < w)%Q -> 1 <= occupancy (Some i) r)
+         /\ (n_fix l <> 0 -> Z.of_nat (occupancy (Some i) r) = slot_countQ w).
+Proof.
+  intros Hne Hlen Hord. rewrite (route_ring_Q_eq order l Hlen), (weighQ_eq_unrepaired l Hlen).
+  now apply route_ring_spec_unrepaired.
+Qed.
+
+Theorem route_split_order_independent order1 order2 (l : list Q) :
+  l <> [] -> (Z.of_nat (length l) <= 3000000000)%Z ->
+  (forall s, Permutation (order1 s) s) -> (forall s, Permutation (order2 s) s) ->
+  exists r1 r2, route_ring arithQ order1 l = Ok (weighQ l, r1)
+    /\ route_ring arithQ order2 l = Ok (weighQ l, r2)
+    /\ length r1 = length r2 /\ forall t, occupancy t r1 = occupancy t r2.
+Proof.
+  intros Hne Hlen H1 H2. rewrite !(route_ring_Q_eq _ l Hlen), (weighQ_eq_unrepaired l Hlen).
+  now apply route_split_order_independent_unrepaired.
+Qed.
+
+(** the crash status shortcut is the model, for every arithmetic instance *)
+Theorem route_status_correct (A : arith) order (fixed : list (num A)) :
+  (forall s, Permutation (order s) s) ->
+  status_of (route_ring A order fixed) = route_status A fixed.
+Proof.
+  intros Hord. unfold route_ring, route_status.
+  destruct (uses_fill A fixed); [|reflexivity].
+  set (counts := map (slot_count A) (weigh A fixed)).
+  pose proof (ring_status_correct counts (order (indexed counts)) (Hord _)) as H.
+  destruct (ring_of_counts (order (indexed counts)) counts); cbn [bind status_of] in *; exact H.
+Qed.
+
+(** the resolution of 10 000 slots, for any weights in [0,1] that sum to one *)
+Local Open Scope Q_scope.
+Lemma resolution_sum_generic (ws : list Q) : ws <> [] ->
+  (forall w, In w ws -> 0 <= w /\ w <= 1) -> sumQ ws == 1 ->
+  (10000 - Z.of_nat (length ws) < zsum (map slot_countQ ws) <= 10000 + Z.of_nat (length ws))%Z.
+Proof.
+  intros Hne H01 Hsum. destruct ws as [|w ws]; [congruence|].
+  cbn [map]. rewrite zsum_cons. rewrite sumQ_cons in Hsum.
+  destruct (H01 w (or_introl eq_refl)) as [H0 H1].
+  destruct (slot_bounds w H0 H1) as [Hl Hu].
+  destruct (slots_sum_bounds ws) as [Sl Su]; [intros x Hx; apply H01; now right|].
+  assert (Hq : qn (length (w :: ws)) == qn (length ws) + 1) by (cbn [length]; apply qn_S).
+  split.
+  - rewrite Zlt_Qlt. rewrite inject_Z_sub, inject_Z_plus. fold (qn (length (w :: ws))). rewrite Hq.
+    assert (inject_Z 10000 == 10000) by reflexivity. nra.
+  - rewrite Zle_Qle. rewrite !inject_Z_plus. fold (qn (length (w :: ws))). rewrite Hq.
+    assert (inject_Z 10000 == 10000) by reflexivity. nra.
+Qed.
+Local Close Scope Q_scope.
+
+Theorem slots_resolution_sum (l : list Q) : l <> [] ->
+  (10000 - Z.of_nat (length l) < zsum (map slot_countQ (weighQ l)) <= 10000 + Z.of_nat (length l))%Z.
+Proof.
+  intros Hne. rewrite <- (weighQ_length l). apply resolution_sum_generic.
+  - intros E. apply (f_equal (@length Q)) in E. rewrite weighQ_length in E. destruct l; [congruence|discriminate].
+  - intros w Hin. split; [now apply (weights_nonneg l)|now apply (weights_le_one l)].
+  - now apply weights_sum_one.
+Qed.
+
+Theorem slots_share_bound (l : list Q) i w : l <> [] -> (Z.of_nat (length l) < 10000)%Z ->
+  nth_error (weighQ l) i = Some w ->
+  let U := inject_Z (zsum (map slot_countQ (weighQ l))) in
+  let B := ((qn (length l) + 1) / (inject_Z 10000 - qn (length l)))%Q in
+  (0 < U)%Q /\ (- B <= inject_Z (slot_countQ w) / U - w)%Q /\ (inject_Z (slot_countQ w) / U - w <= B)%Q.
+Proof.
+  intros Hne Hlt. rewrite (weighQ_eq_unrepaired l ltac:(lia)). now apply slots_share_bound_unrepaired.
+Qed.
+
 Example route_ring_nonvacuous :
   exists r, route_ring arithQ stable_order [1 # 2; 0; 1 # 5]%Q = Ok (weighQ [1 # 2; 0; 1 # 5]%Q, r) /\ r <> [].
 Proof.
